@@ -439,6 +439,21 @@ def nesting_stream(ck):
     fails = []
     for depth in ([1, 5, 20, 60] if not ck.deep else [1, 5, 20, 60, 100, 140]):
         observe(ck, "nesting", nested_run_sequences(depth), fails, None, origin=f"run-sequence nested {depth} deep")
+    # the same in a fresh interpreter WITHOUT the harness's logger stub (F6b, fixed: log_call walked the whole stack on every call)
+    import subprocess
+    prog = ("import sys,time;sys.path.insert(0,sys.argv[1]);from suit_generator.suit.envelope import SuitEnvelopeTagged;"
+            "d=bytes.fromhex(sys.argv[2]);t=time.perf_counter()\n"
+            "try:\n SuitEnvelopeTagged.from_cbor(d).to_obj()\nexcept Exception as e:\n print(type(e).__name__)\n"
+            "print('T',time.perf_counter()-t)")
+    for depth in ((120,) if not ck.deep else (100, 120, 150)):
+        data = nested_run_sequences(depth)
+        p = subprocess.run([core.PY, "-c", prog, core.REPO, data.hex()], capture_output=True, text=True, env=dict(os.environ, PYTHONPATH=core.REPO))
+        took = [float(x.split()[1]) for x in p.stdout.splitlines() if x.startswith("T ")]
+        ck.count("nesting", ("unstubbed", depth), nontrivial=True, sample={"origin": f"run-sequence nested {depth} deep, fresh interpreter, unmodified logger", "len": len(data)})
+        if not took or took[0] > 2.0 + 0.002 * len(data):
+            fails.append({"input": {"bytes": data.hex(), "origin": f"run-sequence nested {depth} deep, parsed in a fresh interpreter (logger not stubbed)"},
+                          "observed": f"parsing took {took[0]:.2f} s for {len(data)} bytes" if took else f"no result: {p.stderr[-200:]}",
+                          "expected": "time proportional to the input size"})
     # beyond the interpreter's recursion limit: known finding F6
     observe(ck, "nesting", nested_run_sequences(400), fails, None, origin="run-sequence nested 400 deep")
     # plain CBOR nesting (arrays / tags) handled by the decoder itself
